@@ -43,11 +43,11 @@ var lockDirs = []string{".", "db", "internal/backend", "internal/session", "inte
 
 // interface type -> the implementation the server uses
 var ifaceImpl = map[string]string{
-	"db.Client":            "sqlite3.Client",
-	"state.UserInterface":  "backend.StateUserInterfaceImpl",
-	"state.Connector":      "backend.stateConnectorImpl",
-	"db.ClientInterface":   "sqlite3.Builder",
-	"session.backendIface": "backend.Backend",
+	"db.Client":               "sqlite3.Client",
+	"state.UserInterface":     "backend.StateUserInterfaceImpl",
+	"state.Connector":         "backend.stateConnectorImpl",
+	"db.ClientInterface":      "sqlite3.Builder",
+	"session.backendIface":    "backend.Backend",
 	"state.AppendOnlyMailbox": "state.Mailbox",
 }
 
@@ -84,8 +84,8 @@ type lclosure struct {
 type lockAn struct {
 	t        *T
 	funcs    map[string]*lfunc
-	byName   map[string][]*lfunc            // method/function name -> decls
-	fields   map[string]map[string]*ltyp    // pkg.Type -> field -> type
+	byName   map[string][]*lfunc         // method/function name -> decls
+	fields   map[string]map[string]*ltyp // pkg.Type -> field -> type
 	fieldFn  map[string]map[string]*ast.FuncType
 	isIface  map[string]bool
 	edges    map[[2]string]string
